@@ -19,7 +19,7 @@ func runFlatStream(c *core.Ctx, r *rec, idx int) {
 	g := &Gen{r: c.Rand(fmt.Sprintf("flatstream-%d", idx)), uid: 2_000_000_000 + int64(idx)*10_000_000}
 	fb := flatbuffers.NewBuilder(2048)
 	n := c.Pick(240, 1200)
-	for k := 0; k < n; k++ {
+	for k := 0; k < n && !r.giveUp(); k++ {
 		env := &Env{Lim: limitProfiles[0], ReqNS: heapString("ns")}
 		rows := 2 + g.r.Intn(8)
 		now := time.Now().UnixMilli()
